@@ -73,6 +73,15 @@ func sprinkle(p *Plan, r *Rng) {
 			p.Gen += "+overlap"
 		}
 	}
+	// overlapping requests come in two flavours: the first one held up on a back-channel link (its call
+	// to the other service is slow), or one of its goroutines held just before some statement of the
+	// request-handling code (pre-empted there) while the second request runs
+	for i := range p.Steps {
+		st := &p.Steps[i]
+		if st.Twin != nil && st.Pause == nil && st.Sub != "slow-upstream-dial" && r.Chance(1, 2) {
+			st.Pause = &PauseSpec{Ord: r.Pick0(0, 0, 0, 1, 2, 3), K: r.Range(1, 240), Dur: 100 * time.Millisecond}
+		}
+	}
 }
 
 var stdUsers = []UserSpec{
